@@ -3,6 +3,7 @@ package simrt
 import (
 	"sort"
 	"sync"
+	"time"
 )
 
 // Locks replacing sync.Mutex / sync.RWMutex in the instrumented copy.
@@ -63,8 +64,26 @@ func strict(g *G) *World {
 	return nil
 }
 
+// jitter lets a little simulated time pass before a lock request (World.LockJitter, keyed by the
+// goroutine's own sequence): without it a handler takes all its locks at one simulated instant, and
+// two requests that arrive microseconds apart never interleave BETWEEN two lock acquisitions of one
+// of them (check-then-act across a lock release, recursive read locks, ...).
+func jitter(g *G) {
+	if g == nil {
+		return
+	}
+	w := Cur()
+	if w == nil || w.LockJitter <= 0 || !w.StrictLocks {
+		return
+	}
+	if d := time.Duration(w.Rand("lockjit:"+w.GSeq(g, "lockjit")) % uint64(w.LockJitter)); d > 0 {
+		Sleep(d)
+	}
+}
+
 func (l *Mutex) Lock() {
 	g := enter()
+	jitter(g)
 	l.m.Lock()
 	if sw := strict(g); sw != nil {
 		w := &waiter{g: g, ch: make(chan struct{}, 1)}
@@ -269,6 +288,7 @@ type RWMutex struct {
 
 func (l *RWMutex) RLock() {
 	g := enter()
+	jitter(g)
 	l.m.Lock()
 	if sw := strict(g); sw != nil {
 		w := &waiter{g: g, ch: make(chan struct{}, 1)}
@@ -321,6 +341,7 @@ func (l *RWMutex) RUnlock() {
 
 func (l *RWMutex) Lock() {
 	g := enter()
+	jitter(g)
 	l.m.Lock()
 	if sw := strict(g); sw != nil {
 		w := &waiter{g: g, ch: make(chan struct{}, 1)}
